@@ -47,9 +47,9 @@ BOT == <<"bottom", 0>>
 CAP == <<"cap", 0>>
 Ent(m) == <<"e", m>>
 LocsDef == {TOP, BOT, CAP} \cup {Ent(m) : m \in 0 .. MaxCap - 1}
-\* prior traffic: Start times (push(100+k); steal) leaves item 100+k in entry k & (Cap0-1)
+\* prior traffic: Start times (push(40+k); steal) leaves item 40+k in entry k & (Cap0-1)
 PriorItem(m) == LET ks == {k \in 0 .. Start - 1 : k % Cap0 = m} IN
-                IF ks = {} THEN 0 ELSE 100 + (CHOOSE k \in ks : \A j \in ks : j <= k)
+                IF ks = {} THEN 0 ELSE 40 + (CHOOSE k \in ks : \A j \in ks : j <= k)
 InitValDef(x) == IF x = TOP \/ x = BOT THEN Start
                  ELSE IF x = CAP THEN Cap0
                  ELSE IF x[2] < Cap0 THEN PriorItem(x[2]) ELSE 0
@@ -67,16 +67,16 @@ L0 == [b |-> 0, t |-> 0, c |-> 0, item |-> 0, i |-> 0, v |-> 0, arg |-> 0]
 Init == /\ MemInit
         /\ pc = [t \in Threads |-> "idle"]
         /\ loc = [t \in Threads |-> L0]
-        /\ lin = MonInit(DequeInit)
+        /\ lin = [mon |-> MonInit(DequeInit), taken |-> {}, bad |-> "ok"]
         /\ budget = [t \in Threads |-> IF t = Owner THEN [push |-> MaxPush, pop |-> MaxPop, steal |-> 0]
                                         ELSE [push |-> 0, pop |-> 0, steal |-> MaxSteal]]
         /\ nextv = 1
-        /\ last = [t |-> -1, k |-> "init", lab |-> "init", v |-> 0, ok |-> 1]
+        /\ last = [t |-> -1, k |-> "init", lab |-> "init", v |-> 0, ok |-> 1, n |-> 0]
         /\ kf = FALSE
 
 Goto(t, l) == pc' = [pc EXCEPT ![t] = l]
 SetL(t, f, v) == loc' = [loc EXCEPT ![t][f] = v]
-Acc(t, k, lab, v, ok) == last' = [t |-> t, k |-> k, lab |-> lab, v |-> v, ok |-> ok]
+Acc(t, k, lab, v, ok) == last' = [t |-> t, k |-> k, lab |-> lab, v |-> v, ok |-> ok, n |-> last.n + 1]    \* n: access counter
 
 \* generic load step: read location x with Ord[lab] into local f, continue at `to`
 LdTo(t, from, lab, x, f, to) ==
@@ -95,14 +95,20 @@ StTo(t, from, lab, x, v, to) ==
   /\ Goto(t, to)
   /\ UNCHANGED <<loc, lin, budget, nextv, kf>>
 
+\* `lin` carries the linearizability monitor (real-time order; meaningful under sequential consistency) and, independent of
+\* any order between operations of different threads, the conservation ghost: the set of items handed out so far.
+\* A successful pop / steal must return an item that was pushed and has not been handed out before.
 Return(t, r, v) ==
-  /\ lin' = MonRet(lin, t, r, v)
+  /\ lin' = [mon |-> MonRet(lin.mon, t, r, v),
+             taken |-> IF loc[t].arg = 0 /\ r = 1 THEN lin.taken \cup {v} ELSE lin.taken,
+             bad |-> IF loc[t].arg = 0 /\ r = 1 /\ lin.bad = "ok" /\ (v \notin 1 .. nextv - 1 \/ v \in lin.taken)
+                       THEN "an item was handed out twice or invented" ELSE lin.bad]
   /\ Goto(t, "idle")
 
 \* ------------------------------------------------------------------ owner: try_push
 StartPush == /\ pc[Owner] = "idle" /\ budget[Owner].push > 0
              /\ budget' = [budget EXCEPT ![Owner].push = @ - 1]
-             /\ lin' = MonCall(lin, Owner, "push", nextv, 0)
+             /\ lin' = [lin EXCEPT !.mon = MonCall(@, Owner, "push", nextv, 0)]
              /\ loc' = [loc EXCEPT ![Owner] = [L0 EXCEPT !.arg = nextv]]
              /\ nextv' = nextv + 1
              /\ Goto(Owner, "pu_b")
@@ -166,7 +172,7 @@ pu_bot == /\ pc[Owner] = "pu_bot"
 \* ------------------------------------------------------------------ owner: try_pop
 StartPop == /\ pc[Owner] = "idle" /\ budget[Owner].pop > 0
             /\ budget' = [budget EXCEPT ![Owner].pop = @ - 1]
-            /\ lin' = MonCall(lin, Owner, "pop", 0, 0)
+            /\ lin' = [lin EXCEPT !.mon = MonCall(@, Owner, "pop", 0, 0)]
             /\ loc' = [loc EXCEPT ![Owner] = L0]
             /\ Goto(Owner, "po_b")
             /\ Acc(Owner, "call", "pop", 0, 1)
@@ -235,7 +241,7 @@ po_b4 == /\ pc[Owner] = "po_b4"
 \* ------------------------------------------------------------------ thief: try_steal
 StartSteal(t) == /\ t # Owner /\ pc[t] = "idle" /\ budget[t].steal > 0
                  /\ budget' = [budget EXCEPT ![t].steal = @ - 1]
-                 /\ lin' = MonCall(lin, t, "steal", 0, 0)
+                 /\ lin' = [lin EXCEPT !.mon = MonCall(@, t, "steal", 0, 0)]
                  /\ loc' = [loc EXCEPT ![t] = L0]
                  /\ Goto(t, "st_t")
                  /\ Acc(t, "call", "steal", 0, 1)
@@ -288,14 +294,20 @@ Spec == Init /\ [][Next]_vars
 
 \* ------------------------------------------------------------------ properties
 \* C12: every history is linearizable w.r.t. abs/Deque (exactly-once, LIFO/FIFO ends, allowed failures)
-Linearizable == lin # {}
+Linearizable == lin.mon # {}
+\* memory-model independent part of C12 (checked under Weak = TRUE, where precedence is happens-before, not real time)
+Conservation == lin.bad = "ok"
+ConservedAtEnd == (\A t \in Threads : pc[t] = "idle") =>
+                    LET window == {Latest(Ent(And(i, Latest(CAP) - 1))) : i \in Latest(TOP) .. Latest(BOT) - 1} IN
+                    /\ window \cup lin.taken = 1 .. nextv - 1
+                    /\ window \cap lin.taken = {}
 \* faithful model (StaleCapOK = TRUE): a violation is excused only in behaviours in which a thief
 \* indexed an entry with a stale capacity - the finding predicate of C12-stale-capacity
-LinearizableOrStaleCap == kf \/ lin # {}
+LinearizableOrStaleCap == kf \/ lin.mon # {}
 \* at quiescence the physical window equals every possible abstract content
 Quiescent == \A t \in Threads : pc[t] = "idle"
 WindowOK == Quiescent =>
-              \A s \in MonAbs(lin) :
+              \A s \in MonAbs(lin.mon) :
                  /\ Latest(BOT) - Latest(TOP) = Len(s.q)
                  /\ \A k \in 1 .. Len(s.q) : Latest(Ent(And(Latest(TOP) + k - 1, Latest(CAP) - 1))) = s.q[k]
 \* weak-memory variant of the safety part: nothing invented, nothing handed out twice
